@@ -486,7 +486,7 @@ fn repetition_cycle(t: &Tables, b0: &BoardState, rng: &mut StdRng) -> Option<Vec
     None
 }
 
-pub fn scenarios(t: &Tables, seeds: &[String], seed: u64, n_small: usize, n_mate: usize, n_rep: usize, n_game: usize, n_term: usize) -> Value {
+pub fn scenarios(t: &Tables, seeds: &[String], seed: u64, n_small: usize, n_mate: usize, n_rep: usize, n_game: usize, n_term: usize, n_fam: usize) -> Value {
     let mut rng = StdRng::seed_from_u64(seed);
     let mut out: Vec<Value> = Vec::new();
     let kits: [(&[u32], &[u32]); 8] = [(&[6, 5], &[6]), (&[6, 4], &[6]), (&[6, 4, 4], &[6]), (&[6, 5], &[6, 4]), (&[6, 4, 1], &[6, 1]),
@@ -526,6 +526,50 @@ pub fn scenarios(t: &Tables, seeds: &[String], seed: u64, n_small: usize, n_mate
                     av += 1;
                 }
             }
+        }
+    }
+    // mate in one for X in P0, reached again by Y after X a-b, Y c-d, X b-a: Y must not step back into P0 (second
+    // occurrence, not a draw) when it has a safe alternative
+    count = 0;
+    tries = 0;
+    while count < n_mate / 2 && tries < 400000 {
+        tries += 1;
+        let (s, w) = kits[rng.gen_range(0..kits.len())];
+        if let Some(b) = random_endgame(t, &mut rng, s, w) {
+            let (mating, total) = has_mate_in_one(t, &b);
+            if mating == 0 || total == 0 {
+                continue;
+            }
+            if let Some(cyc) = repetition_cycle(t, &b, &mut rng) {
+                out.push(json!({"tag": "mate", "cmd": format!("position fen {} moves {}", to_fen(&b, 0, 1), cyc[..3].join(" "))}));
+                count += 1;
+            }
+        }
+    }
+    // members of the geometric families (castling / en passant with sliders on the lines / promotion), after the
+    // special first move when there is one: discovered checks by en passant, checks by castling and promotion
+    count = 0;
+    tries = 0;
+    while count < n_fam && tries < 100000 {
+        tries += 1;
+        if let Some(b) = crate::rules::family_member(t, &mut rng, tries) {
+            let ms = generate_moves(&b, MoveGenerationMode::AllMoves, &t.hasher);
+            if ms.is_empty() {
+                continue;
+            }
+            let specials: Vec<&BoardState> = ms.iter().filter(|m| crate::rules::is_special(&b, m)).collect();
+            let fen = to_fen(&b, 0, 1);
+            let cmd = if !specials.is_empty() && rng.gen_bool(0.7) {
+                let m = specials[rng.gen_range(0..specials.len())];
+                if generate_moves(m, MoveGenerationMode::AllMoves, &t.hasher).is_empty() {
+                    continue;
+                }
+                format!("position fen {} moves {}", fen, printed_move(m))
+            } else {
+                format!("position fen {}", fen)
+            };
+            out.push(json!({"tag": "fam", "cmd": cmd}));
+            count += 1;
         }
     }
     // third repetition on offer
